@@ -37,6 +37,9 @@ pub struct GenCfg {
     pub big_offsets: bool,
     /// allow global.get items in externref element segments (kept switchable: D4)
     pub extern_elem_global: bool,
+    /// keep active segments within the minimum size of their table / memory and give memories and
+    /// tables a non-zero minimum, so that instantiation succeeds (execution suites)
+    pub instantiable: bool,
 }
 
 impl GenCfg {
@@ -67,6 +70,7 @@ impl GenCfg {
             import_mem64: false,
             big_offsets: false,
             extern_elem_global: false,
+            instantiable: false,
         }
     }
     pub fn full() -> GenCfg {
@@ -96,6 +100,7 @@ impl GenCfg {
             import_mem64: true,
             big_offsets: true,
             extern_elem_global: true,
+            instantiable: false,
         }
     }
     /// random feature mix (each post-MVP proposal independently on/off)
@@ -163,10 +168,12 @@ impl VT {
 struct MemInfo {
     is64: bool,
     shared: bool,
+    min: u64,
 }
 #[derive(Clone, Debug)]
 struct TableInfo {
     elem: VT,
+    min: u64,
 }
 #[derive(Clone, Debug)]
 struct GlobalInfo {
@@ -1083,10 +1090,10 @@ pub fn gen_module(rng: &mut Rng, cfg: &GenCfg) -> Generated {
                     continue;
                 }
                 let elem = if cfg.ref_types && rng.chance(1, 3) { VT::ExternRef } else { VT::FuncRef };
-                let min = rng.below(5);
+                let min = if cfg.instantiable { rng.range(2, 5) } else { rng.below(5) };
                 let max = if rng.chance(1, 2) { Some(min + rng.below(5)) } else { None };
                 imports.import(&module, &field, EntityType::Table(TableType { element_type: elem.reft(), table64: false, minimum: min, maximum: max, shared: false }));
-                tables.push(TableInfo { elem });
+                tables.push(TableInfo { elem, min });
             }
             2 => {
                 if !mems.is_empty() && !cfg.multi_memory {
@@ -1094,10 +1101,10 @@ pub fn gen_module(rng: &mut Rng, cfg: &GenCfg) -> Generated {
                 }
                 let is64 = cfg.memory64 && cfg.import_mem64 && rng.chance(1, 3);
                 let shared = cfg.threads && rng.chance(1, 4);
-                let min = rng.below(3);
+                let min = if cfg.instantiable { rng.range(1, 2) } else { rng.below(3) };
                 let max = if shared || rng.chance(1, 2) { Some(min + rng.below(4)) } else { None };
                 imports.import(&module, &field, EntityType::Memory(MemoryType { minimum: min, maximum: max, memory64: is64, shared, page_size_log2: None }));
-                mems.push(MemInfo { is64, shared });
+                mems.push(MemInfo { is64, shared, min });
             }
             _ => {
                 let ty = *rng.pick(&vts);
@@ -1132,15 +1139,15 @@ pub fn gen_module(rng: &mut Rng, cfg: &GenCfg) -> Generated {
     let ntables = if cfg.ref_types { rng.below(3) } else if tables.is_empty() { rng.below(2) } else { 0 };
     for _ in 0..ntables {
         let elem = if cfg.ref_types && rng.chance(1, 3) { VT::ExternRef } else { VT::FuncRef };
-        let min = rng.below(6);
+        let min = if cfg.instantiable { rng.range(2, 6) } else { rng.below(6) };
         let max = if rng.chance(1, 2) { Some(min + rng.below(5)) } else { None };
         table_sec.table(TableType { element_type: elem.reft(), table64: false, minimum: min, maximum: max, shared: false });
-        tables.push(TableInfo { elem });
+        tables.push(TableInfo { elem, min });
     }
     let mut ntables = ntables;
     if want_extern_elem && !tables.iter().any(|t| t.elem == VT::ExternRef) {
         table_sec.table(TableType { element_type: VT::ExternRef.reft(), table64: false, minimum: 4, maximum: None, shared: false });
-        tables.push(TableInfo { elem: VT::ExternRef });
+        tables.push(TableInfo { elem: VT::ExternRef, min: 4 });
         ntables += 1;
     }
     // ---- memories
@@ -1149,10 +1156,10 @@ pub fn gen_module(rng: &mut Rng, cfg: &GenCfg) -> Generated {
     for _ in 0..nmems {
         let is64 = cfg.memory64 && rng.chance(1, 3);
         let shared = cfg.threads && rng.chance(1, 4);
-        let min = rng.below(3);
+        let min = if cfg.instantiable { rng.range(1, 2) } else { rng.below(3) };
         let max = if shared || rng.chance(1, 2) { Some(min + rng.below(4)) } else { None };
         mem_sec.memory(MemoryType { minimum: min, maximum: max, memory64: is64, shared, page_size_log2: None });
-        mems.push(MemInfo { is64, shared });
+        mems.push(MemInfo { is64, shared, min });
     }
     // ---- which functions are "declared" for ref.func
     let mut export_funcs: Vec<u32> = vec![];
@@ -1217,7 +1224,10 @@ pub fn gen_module(rng: &mut Rng, cfg: &GenCfg) -> Generated {
         // an active externref segment whose items read an (otherwise possibly unused) imported global
         let t = tables.iter().position(|t| t.elem == VT::ExternRef).unwrap() as u32;
         let gs: Vec<u32> = imported_globals.iter().filter(|(_, t)| *t == VT::ExternRef).map(|p| p.0).collect();
-        let exprs: Vec<ConstExpr> = vec![ConstExpr::global_get(*rng.pick(&gs)), ConstExpr::ref_null(HeapType::EXTERN)];
+        let mut exprs: Vec<ConstExpr> = vec![ConstExpr::global_get(*rng.pick(&gs)), ConstExpr::ref_null(HeapType::EXTERN)];
+        if cfg.instantiable {
+            exprs.truncate(tables[t as usize].min as usize);
+        }
         elem_sec.active(Some(t), &ConstExpr::i32_const(0), Elements::Expressions(RefType::EXTERNREF, &exprs));
         elem_tys.push(VT::ExternRef);
         n_elem += 1;
@@ -1234,13 +1244,19 @@ pub fn gen_module(rng: &mut Rng, cfg: &GenCfg) -> Generated {
         } else {
             continue;
         };
-        let nitems = rng.below(4) as usize;
+        let mut nitems = rng.below(4) as usize;
         let use_exprs = cfg.ref_types && rng.chance(1, 2);
         let offset_ty = VT::I32;
-        let offset = const_expr_for(rng, offset_ty, &imported_globals, &[], true);
+        let mut offset = const_expr_for(rng, offset_ty, &imported_globals, &[], true);
+        let t_pick = if tables.is_empty() { 0 } else { rng.below(tables.len() as u64) as u32 };
+        if cfg.instantiable && mode == 0 {
+            let tmin = tables[t_pick as usize].min as usize;
+            nitems = nitems.min(tmin);
+            offset = ConstExpr::i32_const(rng.below((tmin - nitems) as u64 + 1) as i32);
+        }
         let fitems: Vec<u32> = (0..nitems).map(|_| rng.below(funcs.len() as u64) as u32).collect();
         if mode == 0 {
-            let t = rng.below(tables.len() as u64) as u32;
+            let t = t_pick;
             let tet = tables[t as usize].elem;
             if tet == VT::ExternRef {
                 // expressions of externref type
@@ -1293,9 +1309,15 @@ pub fn gen_module(rng: &mut Rng, cfg: &GenCfg) -> Generated {
         if !mems.is_empty() && (rng.chance(2, 3) || !cfg.bulk) {
             let m = rng.below(mems.len() as u64) as u32;
             let off_ty = if mems[m as usize].is64 { VT::I64 } else { VT::I32 };
-            let off = match off_ty {
-                VT::I64 => ConstExpr::i64_const(rng.below(70000) as i64),
-                _ => const_expr_for(rng, VT::I32, &imported_globals, &[], true),
+            let off = if cfg.instantiable {
+                let room = mems[m as usize].min * 65536 - len as u64;
+                let o = if rng.chance(1, 2) { rng.below(512.min(room + 1)) } else { room - rng.below(64.min(room + 1)) };
+                if off_ty == VT::I64 { ConstExpr::i64_const(o as i64) } else { ConstExpr::i32_const(o as i32) }
+            } else {
+                match off_ty {
+                    VT::I64 => ConstExpr::i64_const(rng.below(70000) as i64),
+                    _ => const_expr_for(rng, VT::I32, &imported_globals, &[], true),
+                }
             };
             data_specs.push((Some((m, off)), bytes));
         } else if cfg.bulk {
